@@ -228,10 +228,16 @@ fn exec_line(out: &mut impl Write, line: &str, cur: &mut Option<Built>) -> Resul
                 let p = String::from_utf8(t.bytes()?).map_err(|_| "path not utf-8")?;
                 files.push((p, t.bytes()?));
             }
+            let warm = if t.peek() == Some("W") {
+                t.expect("W")?;
+                Some(String::from_utf8(t.bytes()?).map_err(|_| "warm-up tz not utf-8")?)
+            } else {
+                None
+            };
             t.expect("S")?;
             let tz = String::from_utf8(t.bytes()?).map_err(|_| "tz not utf-8")?;
             let d: Vec<&str> = dirs.iter().map(|s| s.as_str()).collect();
-            crate::parse::resolve_line(out, &d, &files, &tz);
+            crate::parse::resolve_line_after(out, &d, &files, warm.as_deref(), &tz);
         }
         _ => return Err(format!("family {} cannot be re-executed", fam)),
     }
